@@ -63,6 +63,9 @@ type actor struct {
 	firstRm         int64
 	heldAtCallStart bool
 	settingUp       atomic.Bool // created the lock directory, heart-beat not started yet
+	acquiredAt      time.Time
+	lastBeat        time.Time
+	maxBeatGap      time.Duration
 }
 
 type world struct {
@@ -81,27 +84,32 @@ type world struct {
 	preempted bool // a grant went to another client between two operations of one API call
 	contended int  // acquire attempts made while the lock directory existed
 	lastGrant string
+	t0        time.Time
+	starved   bool
 }
 
 func (w *world) logf(format string, a ...any) {
-	if len(w.history) < 400 {
+	if len(w.history) < 1500 {
 		w.history = append(w.history, fmt.Sprintf(format, a...))
 	}
 }
 
-// Between the creation of the lock directory and the start of its heart-beat a contender is as good as a heart-beat
-// writer: parking it there for more than two periods of real time would make its fresh lock look abandoned (a pause of
-// the process, not an interleaving), so those operations are not parked either.
+// Between the creation of the lock directory and the start of its heart-beat a contender must not be held back for
+// long: parking it there for more than two periods of REAL time would make its fresh lock look abandoned (a pause of the
+// process, not an interleaving). The coordinator therefore lets at most three foreign operations in while a contender
+// is in that window (enough to observe the directory without a heart-beat file) and then lets it finish.
 func (w *world) unparked(op *fsx.Op) bool {
-	if w.isHeartbeat(op) {
-		return true
-	}
+	return w.isHeartbeat(op)
+}
+
+// settingUpClient names the contender (if any) that has created the lock directory and not yet started its heart-beat.
+func (w *world) settingUpClient() string {
 	for _, a := range w.actors {
-		if a.name == op.Client && a.settingUp.Load() {
-			return true
+		if a.settingUp.Load() {
+			return a.name
 		}
 	}
-	return false
+	return ""
 }
 
 func (w *world) isHeartbeat(op *fsx.Op) bool {
@@ -121,7 +129,31 @@ func (w *world) live(a *actor) bool { return !a.dead }
 
 // after is called for every backend operation once it was executed.
 func (w *world) after(op *fsx.Op) {
-	if w.isHeartbeat(op) || op.Err != "" {
+	if w.isHeartbeat(op) {
+		if op.Kind == "chtimes" {
+			w.mu.Lock()
+			w.logf("[%dms] heart-beat of %s completed (%s)", time.Since(w.t0).Milliseconds(), op.Client, op.Err)
+			for _, a := range w.actors {
+				if a.name == op.Client && op.Err == "" {
+					now := time.Now()
+					if !a.lastBeat.IsZero() {
+						if g := now.Sub(a.lastBeat); g > a.maxBeatGap {
+							a.maxBeatGap = g
+						}
+					}
+					a.lastBeat = now
+				}
+			}
+			w.mu.Unlock()
+		}
+		return
+	}
+	if strings.HasSuffix(op.Path, ".lock") && op.Kind == "stat" {
+		w.mu.Lock()
+		w.logf("[%dms] %s stats the heart-beat file (%s)", time.Since(w.t0).Milliseconds(), op.Client, op.Err)
+		w.mu.Unlock()
+	}
+	if op.Err != "" {
 		return
 	}
 	if op.Path != w.lockDir {
@@ -152,6 +184,17 @@ func (w *world) after(op *fsx.Op) {
 		if w.owner >= 0 && w.owner != a.idx {
 			o := w.actors[w.owner]
 			ownerBusyReleasing := o.inCall == "unlock"
+			// the property's precondition: "as long as the holder's heartbeat keeps running". Under machine load a
+			// heart-beat write can take longer than two periods; the lock then legitimately looks stale.
+			starved := !o.lastBeat.IsZero() && (time.Since(o.lastBeat) > 70*time.Millisecond || o.maxBeatGap > 70*time.Millisecond)
+			if o.lastBeat.IsZero() && !o.acquiredAt.IsZero() && time.Since(o.acquiredAt) > 70*time.Millisecond {
+				starved = true
+			}
+			if starved && w.live(o) && !ownerBusyReleasing && w.known == "" {
+				w.starved = true
+				w.logf("the heart-beat of %s did not run every period (last %v ago, largest gap %v): not judged", o.name, time.Since(o.lastBeat).Round(time.Millisecond), o.maxBeatGap.Round(time.Millisecond))
+				w.known = "starved"
+			}
 			if w.live(o) && !ownerBusyReleasing && w.known == "" {
 				msg := fmt.Sprintf("%s (inside %s) removed the lock directory created by %s at #%d, which is alive and has not begun to release", a.name, a.inCall, o.name, w.ownerSeq)
 				// The two listed protocol races share one signature: the directory removed was created AFTER the remover's
@@ -194,6 +237,12 @@ func (w *world) end(a *actor, call string, err error) {
 	a.inCall = ""
 	a.settingUp.Store(false)
 	w.logf("%s ends %s: %v", a.name, call, err)
+	if err != nil && w.owner == a.idx && (call == "trylock" || call == "lock" || call == "lockwithtimeout") {
+		// the acquire call failed (e.g. LockWithTimeout timed out at the very moment its Lock succeeded) although it had
+		// created the directory: nobody holds that lock, it is an orphan that will go stale
+		w.owner = -1
+		w.logf("the lock directory created by %s is an orphan", a.name)
+	}
 	if err == nil && (call == "trylock" || call == "lock" || call == "lockwithtimeout") {
 		for _, o := range w.actors {
 			if o != a && o.holding && w.live(o) && w.known == "" && w.violation == "" {
@@ -201,6 +250,8 @@ func (w *world) end(a *actor, call string, err error) {
 			}
 		}
 		a.holding = true
+		a.acquiredAt = time.Now()
+		a.lastBeat, a.maxBeatGap = time.Time{}, 0
 	}
 }
 
@@ -212,7 +263,7 @@ func runCase(t ev.T, test string, c Case) (known string) {
 	dir := box.Path("locks")
 	_ = box.Raw.MkdirAll(dir, 0o755)
 	_ = box.Raw.MkdirAll(box.Path("elsewhere"), 0o755)
-	w := &world{c: &c, box: box, lockDir: filepath.Join(dir, filesystem.LockFilePrefix+"-"+lockID), owner: -1}
+	w := &world{c: &c, box: box, lockDir: filepath.Join(dir, filesystem.LockFilePrefix+"-"+lockID), owner: -1, t0: time.Now()}
 	sched := baton.New(box.Backend, w.unparked)
 	box.Backend.KeepOps(false)
 	sched.OnAfter = func(op *fsx.Op) {
@@ -230,6 +281,20 @@ func runCase(t ev.T, test string, c Case) (known string) {
 	}
 	life, endLife := context.WithCancel(context.Background())
 	defer endLife()
+	// stall monitor: the property presupposes that the holder's heart-beat runs every period. If the whole process is
+	// held up (machine overloaded) a live lock legitimately goes stale: such histories are inconclusive, never violations.
+	var maxGap atomic.Int64
+	go func() {
+		last := time.Now()
+		for life.Err() == nil {
+			time.Sleep(2 * time.Millisecond)
+			now := time.Now()
+			if g := int64(now.Sub(last)); g > maxGap.Load() {
+				maxGap.Store(g)
+			}
+			last = now
+		}
+	}()
 	var wg sync.WaitGroup
 	for i := range w.actors {
 		a := w.actors[i]
@@ -252,6 +317,7 @@ func runCase(t ev.T, test string, c Case) (known string) {
 					}
 					w.begin(a, st.Op)
 					var err error
+					diedAfterAcquire := false
 					switch st.Op {
 					case "trylock":
 						err = a.lock.TryLock(life)
@@ -260,13 +326,25 @@ func runCase(t ev.T, test string, c Case) (known string) {
 						lctx, lcancel := context.WithCancel(life)
 						timer := time.AfterFunc(time.Duration(40+st.Arg)*time.Millisecond, lcancel)
 						err = a.lock.Lock(lctx)
-						if timer.Stop() && err != nil {
+						timer.Stop()
+						if err != nil {
 							lcancel()
+						} else if lctx.Err() != nil {
+							// the deadline fired at the very moment Lock succeeded: the heart-beat (tied to that context) is
+							// already stopped, which is what a holder dying right after its acquire looks like
+							diedAfterAcquire = true
 						}
 					default:
 						err = a.lock.LockWithTimeout(life, time.Duration(5+st.Arg)*time.Millisecond)
 					}
 					w.end(a, st.Op, err)
+					if diedAfterAcquire {
+						w.mu.Lock()
+						a.dead = true
+						w.logf("%s: heart-beat context ended at the moment of the acquire: counts as dying while holding", a.name)
+						w.mu.Unlock()
+						a.client.Revoke()
+					}
 				case "hold":
 					for k := 0; k < st.Arg; k++ {
 						_, _ = a.fs.Stat(box.Path("elsewhere"))
@@ -318,6 +396,7 @@ func runCase(t ev.T, test string, c Case) (known string) {
 	}
 	// the coordinator
 	prev := ""
+	windowGrants := 0
 	for g := 0; g < 4000 && !sched.AllDone(); g++ {
 		perm := c.Schedule[g%len(c.Schedule)]
 		prio := make([]string, 0, len(perm))
@@ -326,7 +405,16 @@ func runCase(t ev.T, test string, c Case) (known string) {
 				prio = append(prio, names[p])
 			}
 		}
-		got := sched.Step(prio, nil, 300*time.Millisecond)
+		su := w.settingUpClient()
+		if su == "" {
+			windowGrants = 0
+		}
+		got := sched.Step(prio, func(client string, _ *fsx.Op) bool {
+			return su == "" || client == su || windowGrants < 3
+		}, 300*time.Millisecond)
+		if su != "" && got != "" && got != su {
+			windowGrants++
+		}
 		if got == "" {
 			continue
 		}
@@ -369,10 +457,21 @@ func runCase(t ev.T, test string, c Case) (known string) {
 	if w.contended > 0 {
 		ev.Class("acquire-attempt-on-existing-lock")
 	}
+	if w.starved {
+		ev.Inconclusive("a holder's heart-beat was held up for more than a period (machine load): history not judged")
+		if w.known == "starved" {
+			w.known = ""
+		}
+	}
+	if w.violation != "" && time.Duration(maxGap.Load()) > 30*time.Millisecond {
+		ev.Inconclusive("process stalled during the history (heart-beats could not run every period)")
+		return w.known
+	}
+	ev.MetricMax("max_scheduling_gap_ms", float64(time.Duration(maxGap.Load()).Milliseconds()))
 	if w.violation != "" {
 		h := w.history
-		if len(h) > 120 {
-			h = h[len(h)-120:]
+		if len(h) > 160 {
+			h = h[len(h)-160:]
 		}
 		ev.Fail(t, prop, test, c, "%s; history: %s", w.violation, strings.Join(h, " | "))
 	}
